@@ -624,6 +624,49 @@ pub fn gen_c04(rng: &mut Rng, thorough: bool) -> Vec<Tagged> {
             out.push((tag, Case::Net(spec, NetCmd::Learn { data, val: None, batch, epochs })));
         }
     }
+    // long runs (7 .. 70 epochs) in which the reported loss stays constant for many epochs although the
+    // step is no no-op (dead ReLU + weight decay, momentum carrying on, Adam moments, a loss saturated in
+    // binary32): E epochs are E x ceil(N/B) steps and E losses
+    for (k, &epochs) in [7i32, 9, 12, 20, 33, 70].iter().enumerate() {
+        if !(thorough || k < 3) {
+            continue;
+        }
+        for variant in 0..4 {
+            let mut spec = NetSpec::new(Sh::Flat(2).to_shape());
+            let (act, w, b, data): (Act, [f32; 2], f32, Vec<(Tensor, Tensor)>) = match variant {
+                // dead ReLU: pre-activation negative for every sample, zero gradient, constant loss
+                0 | 1 => (Act::ReLU, [-0.5, -1.0], -0.25, vec![(t1(vec![1.0, 2.0]), t1(vec![1.0])), (t1(vec![0.5, 0.25]), t1(vec![2.0])), (t1(vec![2.0, 0.0]), t1(vec![0.5]))]),
+                // targets of magnitude 1e15 with a tiny rate: the loss does not move in binary32
+                2 => (Act::Linear, [0.5, 0.25], 0.0, vec![(t1(vec![1.0, 2.0]), t1(vec![1e15])), (t1(vec![0.5, 0.25]), t1(vec![-2e15])), (t1(vec![2.0, 0.0]), t1(vec![3e15]))]),
+                // exactly fitted data (zero loss from the start)
+                _ => (Act::Linear, [1.0, 0.0], 0.0, vec![(t1(vec![1.0, 2.0]), t1(vec![1.0])), (t1(vec![0.5, 0.25]), t1(vec![0.5])), (t1(vec![2.0, 0.0]), t1(vec![2.0]))]),
+            };
+            spec.layers.push(LayerSpec::One(Simple::Dense { out: 1, act, bias: true, dropout: None }));
+            spec.weights = Some(vec![LW::One(W::Dense(t2(1, 2, &w), Some(t1(vec![b]))))]);
+            spec.opt = match (variant + k) % 4 {
+                0 => Opt::SGD { lr: 0.05, decay: Some(0.1) },
+                1 => Opt::SGDM { lr: 0.05, momentum: 0.9, dampening: 0.0, decay: Some(0.05) },
+                2 => Opt::Adam { lr: 0.01, b1: 0.9, b2: 0.999, eps: 1e-8, decay: Some(0.1) },
+                _ => Opt::RMS { lr: 0.01, alpha: 0.9, eps: 1e-8, decay: Some(0.1), momentum: Some(0.5), centered: false },
+            };
+            if variant == 2 {
+                spec.opt = Opt::SGD { lr: 1e-12, decay: None };
+            }
+            spec.obj = Obj::MSE;
+            out.push((format!("learn-long-constant-loss-v{}-E{}", variant, epochs), Case::Net(spec, NetCmd::Learn { data, val: None, batch: 2, epochs })));
+        }
+    }
+    // arithmetic in the subnormal range on the calling thread and the workers alike
+    for variant in 0..2 {
+        let mut spec = NetSpec::new(Sh::Flat(1).to_shape());
+        spec.layers.push(LayerSpec::One(Simple::Dense { out: 1, act: Act::Linear, bias: false, dropout: None }));
+        spec.layers.push(LayerSpec::One(Simple::Dense { out: 1, act: Act::Linear, bias: variant == 1, dropout: None }));
+        spec.weights = Some(vec![LW::One(W::Dense(t2(1, 1, &[1e-20]), None)), LW::One(W::Dense(t2(1, 1, &[1e30]), if variant == 1 { Some(t1(vec![1e-41])) } else { None }))]);
+        spec.opt = if variant == 0 { Opt::SGD { lr: 1e-25, decay: None } } else { Opt::SGDM { lr: 1e-25, momentum: 0.9, dampening: 0.0, decay: Some(1e-3) } };
+        spec.obj = Obj::MSE;
+        let data: Vec<(Tensor, Tensor)> = (1..=8).map(|k| (t1(vec![k as f32 * 1e-20]), t1(vec![0.0]))).collect();
+        out.push(("learn-subnormal-arithmetic".into(), Case::Net(spec, NetCmd::Learn { data, val: None, batch: 4, epochs: 2 })));
+    }
     // feedback blocks whose layers mix bias / no bias (the per-sample bias gradients are optional
     // entries of a nested list), summed over groups of two and three samples
     for r in 0..(if thorough { 24 } else { 6 }) {
@@ -1103,11 +1146,43 @@ pub fn gen_c05(rng: &mut Rng, thorough: bool) -> Vec<Tagged> {
     out
 }
 
+/// runs one job in pools of every size, repeated, with and without schedule perturbation: all results equal
+fn across_pools(f: &mut crate::fals::Fals, rng: &mut Rng, pools: &[usize], reps: usize, spec: &NetSpec, cmd: &NetCmd, class: &str, name: &str, descr: &str) {
+    use crate::case::run_net_cmd;
+    let mut reference: Option<(usize, usize, Vec<i128>)> = None;
+    for &k in pools {
+        let pool = rayon::ThreadPoolBuilder::new().num_threads(k).build().unwrap();
+        for rep in 0..reps {
+            neurons::verif::PERTURB.store(if rep % 2 == 1 { rng.next() | 1 } else { 0 }, std::sync::atomic::Ordering::Relaxed);
+            let out = pool.install(|| {
+                let r = std::panic::catch_unwind(std::panic::AssertUnwindSafe(|| {
+                    let mut n = spec.build();
+                    let mut t: Vec<i128> = vec![0];
+                    run_net_cmd(&mut t, &mut n, cmd);
+                    t
+                }));
+                r.unwrap_or_else(|_| vec![1])
+            });
+            neurons::verif::PERTURB.store(0, std::sync::atomic::Ordering::Relaxed);
+            match &reference {
+                None => reference = Some((k, rep, out)),
+                Some((k0, r0, o0)) => {
+                    let same = *o0 == out;
+                    f.check(class, same, "result differs between thread counts / repetitions", || {
+                        let pos = o0.iter().zip(out.iter()).position(|(a, b)| a != b).unwrap_or(0);
+                        format!("{} on {}: {} threads (repetition {}) vs {} threads (repetition {}): first difference at result token {} ({} vs {})",
+                                name, descr, k0, r0, k, rep, pos, o0.get(pos).cloned().unwrap_or(0), out.get(pos).cloned().unwrap_or(0))
+                    });
+                }
+            }
+        }
+    }
+}
+
 /// C05 falsifier: the same training / validation / batched-prediction job in thread pools of
 /// different sizes, repeated, with and without schedule perturbation; every observable must be
 /// bit-identical across all runs.
 pub fn fals_c05(rng: &mut Rng, thorough: bool) -> crate::fals::Fals {
-    use crate::case::run_net_cmd;
     let mut f = crate::fals::Fals::new();
     let mut o = GenOpts::default();
     o.wkind = 2;
@@ -1157,35 +1232,31 @@ pub fn fals_c05(rng: &mut Rng, thorough: bool) -> crate::fals::Fals {
             ("predict_batch", NetCmd::PredictBatch(val.iter().map(|d| d.0.clone()).collect())),
         ];
         built += 1;
+        let descr = format!("network {:?} ({} training samples, {} evaluation inputs)", spec.layers.iter().map(|l| l.kind()).collect::<Vec<_>>(), nd, nv);
         for (name, cmd) in cmds {
-            let mut reference: Option<(usize, usize, Vec<i128>)> = None;
-            for &k in &pools {
-                let pool = rayon::ThreadPoolBuilder::new().num_threads(k).build().unwrap();
-                for rep in 0..reps {
-                    neurons::verif::PERTURB.store(if rep % 2 == 1 { rng.next() | 1 } else { 0 }, std::sync::atomic::Ordering::Relaxed);
-                    let out = pool.install(|| {
-                        let r = std::panic::catch_unwind(std::panic::AssertUnwindSafe(|| {
-                            let mut n = spec.build();
-                            let mut t: Vec<i128> = vec![0];
-                            run_net_cmd(&mut t, &mut n, &cmd);
-                            t
-                        }));
-                        r.unwrap_or_else(|_| vec![1])
-                    });
-                    neurons::verif::PERTURB.store(0, std::sync::atomic::Ordering::Relaxed);
-                    match &reference {
-                        None => reference = Some((k, rep, out)),
-                        Some((k0, r0, o0)) => {
-                            let same = *o0 == out;
-                            f.check(&format!("schedule/{}{}", name, if built % 4 == 0 { "/feedback-inskips-L>=3" } else { "" }), same, "result differs between thread counts / repetitions", || {
-                                let pos = o0.iter().zip(out.iter()).position(|(a, b)| a != b).unwrap_or(0);
-                                format!("{} on network {:?} ({} training samples, {} evaluation inputs): {} threads (repetition {}) vs {} threads (repetition {}): first difference at result token {} ({} vs {})",
-                                        name, spec.layers.iter().map(|l| l.kind()).collect::<Vec<_>>(), nd, nv, k0, r0, k, rep, pos, o0.get(pos).cloned().unwrap_or(0), out.get(pos).cloned().unwrap_or(0))
-                            });
-                        }
-                    }
-                }
-            }
+            let class = format!("schedule/{}{}", name, if built % 4 == 0 { "/feedback-inskips-L>=3" } else { "" });
+            across_pools(&mut f, rng, &pools, reps, &spec, &cmd, &class, name, &descr);
+        }
+    }
+    // arithmetic in the subnormal range (weights 1e-20 and 1e30, inputs k*1e-20, rate 1e-25): the floating-point
+    // environment of the thread that happens to run a sample or the update must not matter
+    for variant in 0..(if thorough { 4 } else { 2 }) {
+        let mut spec = NetSpec::new(Sh::Flat(1).to_shape());
+        let d1 = Simple::Dense { out: 1, act: Act::Linear, bias: false, dropout: None };
+        let d2 = Simple::Dense { out: 1, act: Act::Linear, bias: variant % 2 == 1, dropout: None };
+        spec.layers.push(LayerSpec::One(d1));
+        spec.layers.push(LayerSpec::One(d2));
+        spec.weights = Some(vec![LW::One(W::Dense(t2(1, 1, &[1e-20]), None)), LW::One(W::Dense(t2(1, 1, &[1e30]), if variant % 2 == 1 { Some(t1(vec![1e-41])) } else { None }))]);
+        spec.opt = if variant < 2 { Opt::SGD { lr: 1e-25, decay: None } } else { Opt::SGDM { lr: 1e-25, momentum: 0.9, dampening: 0.0, decay: Some(1e-3) } };
+        spec.obj = Obj::MSE;
+        let data: Vec<(Tensor, Tensor)> = (1..=32).map(|k| (t1(vec![k as f32 * 1e-20]), t1(vec![0.0]))).collect();
+        let cmds = vec![
+            ("learn", NetCmd::Learn { data: data.clone(), val: Some((data.clone(), 100)), batch: 8, epochs: 2 }),
+            ("validate", NetCmd::Validate { data: data.clone(), tol: 1e-30, pre_training: false }),
+            ("predict_batch", NetCmd::PredictBatch(data.iter().map(|d| d.0.clone()).collect())),
+        ];
+        for (name, cmd) in cmds {
+            across_pools(&mut f, rng, &pools, reps, &spec, &cmd, &format!("schedule/{}/subnormal-arithmetic", name), name, "1->1->1 linear network with weights 1e-20, 1e30");
         }
     }
     f
